@@ -6,6 +6,7 @@ codes; each report is compared with reference checks written from the documented
 conditions; E204/E401 must imply rejection by add; CLI exit status."""
 import contextlib
 import copy
+import json
 import io
 import itertools
 import os
@@ -28,6 +29,34 @@ MANIFEST = dict(
     text='A valid base lexicon (4 entries, 5 senses, 4 synsets, reciprocated relations) is damaged by each of ~40 faults (duplicate id of every kind, sense to a missing synset, dangling sense/synset relation target incl. a hypernym to a missing synset, synset relation targeting a sense, empty synset, entry without senses, redundant sense, redundant entry, repeated ILI, proposed ILI without definition, spurious ILIDefinition, blank definition/example, repeated definition, invalid relation type for each relation table, redundant relation with and without dc:type, missing reverse, hypernym part-of-speech clash, self-loops) at every applicable position, singly and (thorough) in every ordered pair. validate() must return (never raise) for every selection (each of the 18 codes, E, W, both, pairs of codes), the report keys must be exactly the selected codes in table order, and for every code the set of reported entities and their context must equal the reference check. Whenever E204 or E401 is reported, add_lexical_resource must raise and leave the exact table dump unchanged; the CLI exit status must be 1 exactly when some item is reported.',
     note='Reference checks are written from the module table and the check docstrings of wn.validate; REVERSE_RELATIONS is additionally required to be an involution.',
 )
+
+def documented_inventories():
+    """relation inventories as documented in docs/api/wn.constants.rst (the specification the W402 check
+    refers to); {} if the file is not there"""
+    import re
+    from pathlib import Path
+    p = Path(wn.__file__).resolve().parent.parent / 'docs' / 'api' / 'wn.constants.rst'
+    if not p.exists():
+        return {}
+    out, cur = {}, None
+    for line in p.read_text().splitlines():
+        m = re.match(r'\.\. data:: (\w+)', line)
+        if m:
+            cur = m.group(1)
+            out[cur] = set()
+            continue
+        m = re.match(r'\s+- ``([^`]+)``', line)
+        if m and cur:
+            out[cur].add(m.group(1))
+        elif line and not line.startswith(' ') and not line.startswith('..'):
+            cur = None if not line.startswith('-') else cur
+    return {k: v for k, v in out.items() if v}
+
+
+DOC = documented_inventories()
+SENSE_RELATIONS_D = DOC.get('SENSE_RELATIONS', set(SENSE_RELATIONS))
+SENSE_SYNSET_RELATIONS_D = DOC.get('SENSE_SYNSET_RELATIONS', set(SENSE_SYNSET_RELATIONS))
+SYNSET_RELATIONS_D = DOC.get('SYNSET_RELATIONS', set(SYNSET_RELATIONS))
 
 CODES = ['E101', 'W201', 'W202', 'W203', 'E204', 'W301', 'W302', 'W303', 'W304', 'W305', 'W306', 'W307',
          'E401', 'W402', 'W403', 'W404', 'W501', 'W502']
@@ -178,11 +207,11 @@ def reference(lex):
             R['E401'][ss['id']] = None
     R['W402'] = {}
     for s, r in srels:
-        if (r['target'] in sids and r['relType'] not in SENSE_RELATIONS) or \
-                (r['target'] in ssids and r['relType'] not in SENSE_SYNSET_RELATIONS):
+        if (r['target'] in sids and r['relType'] not in SENSE_RELATIONS_D) or \
+                (r['target'] in ssids and r['relType'] not in SENSE_SYNSET_RELATIONS_D):
             R['W402'][s['id']] = None
     for ss, r in ssrels:
-        if r['relType'] not in SYNSET_RELATIONS:
+        if r['relType'] not in SYNSET_RELATIONS_D:
             R['W402'][ss['id']] = None
     red = _multi([(s['id'], r['relType'], r['target'], (r.get('meta') or {}).get('type')) for s, r in srels] +
                  [(ss['id'], r['relType'], r['target'], (r.get('meta') or {}).get('type')) for ss, r in ssrels])
@@ -369,9 +398,24 @@ def run(tier, seed, jobs=None):
     rc = runner.run_space(PROP, tier, seed, cases, check, rule=rule, jobs=jobs, chunk=1, recheck=check,
                           samples=[cases[0]['faults'][1], cases[-1]['faults'][0]],
                           extra={'faults': len(FAULTS), 'reverse_relations_involution': not bad})
+    problems = []
     if bad:
-        print(f'VIOLATION property={PROP} replay=none')
-        print(f'  REVERSE_RELATIONS is not an involution: {bad}')
+        problems.append(f'REVERSE_RELATIONS is not an involution: {bad}')
+    for name, have in (('SENSE_RELATIONS', SENSE_RELATIONS), ('SENSE_SYNSET_RELATIONS', SENSE_SYNSET_RELATIONS),
+                       ('SYNSET_RELATIONS', SYNSET_RELATIONS)):
+        if name in DOC and set(have) != DOC[name]:
+            problems.append(f'wn.constants.{name} differs from the documented inventory: missing '
+                            f'{sorted(DOC[name] - set(have))}, undocumented {sorted(set(have) - DOC[name])}')
+    unknown = sorted(k for k in REVERSE_RELATIONS if k not in set(SENSE_RELATIONS) | set(SYNSET_RELATIONS))
+    if unknown:
+        problems.append(f'REVERSE_RELATIONS mentions relation types in no inventory: {unknown}')
+    if problems:
+        rp = runner.VERIF / 'replays' / PROP
+        rp.mkdir(parents=True, exist_ok=True)
+        (rp / 'constants.json').write_text(json.dumps({'property': PROP, 'key': 'constants', 'problems': problems}, indent=1))
+        print(f'VIOLATION property={PROP} replay={rp / "constants.json"}')
+        for pr in problems:
+            print('  ' + pr)
         return 1
     return rc
 
